@@ -487,7 +487,7 @@ theorem postFile_payonce_spec {s s' : State} {h now : Int} {creator merkle : Str
   have n2 := sendFromModule_not_blocked hb2
   simp only [newGauge'_eq, m1, m2, m3, m4] at hb1 h2 n2
   subst hs
-  refine ⟨cost, b1, hcost, hc0, hd, (newCoins_spec hspc).1, hb1, h2.2, n2, ?_, ?_⟩
+  refine ⟨cost, b1, hcost, hc0, hd.1, (newCoins_spec hspc).1, hb1, h2.2, n2, ?_, ?_⟩
   · simp only [newGauge'_eq, m4]; rfl
   · have c := (hsm (postFileRec s h creator merkle fs mp ex pt note)).cfg
     exact ⟨c.coll, c.params, c.macc, c.cacc, c.pacc, c.facc, c.blk, c.prov⟩
